@@ -157,6 +157,7 @@ type Run struct {
 	Prelude    string // Coq definitions emitted at the top of every shard
 
 	shardSize   int
+	curBytes    int
 	cur         []string
 	shard       int
 	recs        *os.File
@@ -166,6 +167,7 @@ type Run struct {
 	nontrivial  int
 	dist        map[string]int
 	failures    []Failure
+	failKeys    map[string]int
 	samples     []any
 	knownNotes  []string
 	extra       map[string]any
@@ -232,7 +234,8 @@ func (r *Run) Case(stream, coqCase string, impl Obs, desc any, tags map[string]s
 	if len(r.samples) < 6 && (nontrivial || r.evals%97 == 0) {
 		r.samples = append(r.samples, map[string]any{"stream": stream, "case": desc, "impl_obs": impl.Show()})
 	}
-	if len(r.cur) >= r.shardSize {
+	r.curBytes += len(r.cur[len(r.cur)-1])
+	if len(r.cur) >= r.shardSize || r.curBytes > 180000 {
 		r.flush()
 	}
 }
@@ -254,9 +257,23 @@ func (r *Run) flush() {
 	_ = os.WriteFile(filepath.Join(r.Out, fmt.Sprintf("cases_%d.v", r.shard)), []byte(sb.String()), 0o644)
 	r.shard++
 	r.cur = nil
+	r.curBytes = 0
 }
 func (r *Run) Fail(what string, sig map[string]string, replay any) {
-	if len(r.failures) < 200 {
+	key := what
+	ks := make([]string, 0, len(sig))
+	for k := range sig {
+		ks = append(ks, k)
+	}
+	sort.Strings(ks)
+	for _, k := range ks {
+		key += "|" + k + "=" + sig[k]
+	}
+	if r.failKeys == nil {
+		r.failKeys = map[string]int{}
+	}
+	r.failKeys[key]++
+	if r.failKeys[key] <= 20 && len(r.failures) < 2000 {
 		r.failures = append(r.failures, Failure{Kind: "oracle", What: what, Sig: sig, Replay: replay})
 	}
 	r.Count("oracle_fail:" + what)
